@@ -25,6 +25,10 @@ CHECKS = {
          "generated-input search: exhaustive strings over {CR,LF,x} (length<=L) + random strings over the canonicalization alphabet, every sign interface crossed with every applicable verify interface (pairwise oracle: own signature must verify), prefixed messages assembled by an independent framer",
          "exploration: all 3-symbol strings up to length 6 (thorough 8) and random Sigma strings incl. buffer-edge placements; sign interfaces {detached binary/text, SignatureConfig::sign, hasher+Write chunks, builder 1..3 signers, cleartext sign/new/new_many} x verify interfaces {Signature::verify, DetachedSignature::verify, re-parsed binary/armored, Message::verify prefixed and one-pass, verify_nested, extracted one-pass signature as detached, cleartext verify/verify_many/after armor}; all zoo algorithms sampled",
          "only completeness (own signatures verify) is asserted here; soundness is C02; hash algorithms are restricted to those rPGP documents as strong enough for the key"),
+ "C07": ("DESIGN.md §4 C07",
+         "generated-input search over (key shape, RNG seed) with validity and round-trip oracles: bindings and back signatures verify, export/import equality, requested flags/preferences/features present, sign/verify and encrypt/decrypt usability incl. wrong-password refusal, independent de-framing and key-packet decoding of the export; illegal shapes must be refused",
+         "exploration: ~4k (thorough ~80k) keys of the cheap shapes (Ed25519Legacy/Ed25519/P-256 primaries, Curve25519Legacy/X25519/P-256 encryption subkeys, signing subkeys, locked/unlocked, 0..3 user ids, v4/v6) and 60 (1.5k) of the expensive ones (Ed448, P-384, P-521, secp256k1, RSA-2048, DSA-2048, X448); leading-zero field occurrences are measured per run",
+         "1/256 leading-zero cases are probabilistic: ~1.3k Curve25519Legacy subkeys per quick run give ~5 expected occurrences per field; expensive algorithms get far fewer seeds"),
  "C09": ("DESIGN.md §4 C09",
          "metamorphic generated-input search (reference run vs runs under generated source/consumer/sink schedules) + exhaustive single-fault enumeration (source call k / sink write k, sticky and transient) for a fixed list of builder configurations and armored writers, sampled faults elsewhere",
          "exploration + fault enumeration: builder output byte-identical under any source/sink fragmentation (clock-free configurations), reader results identical under any source schedule and consumer (read, read_to_end, alternating, exact, fill_buf/consume), Dearmor, key import, detached sign/verify data readers, cleartext parser, CFB stream encryptor; every source call index and sink write index of 48 (quick 24) builder configurations x 3 payload sizes and of 20 armored writers fails once, sticky and transient",
